@@ -327,3 +327,23 @@ Fixpoint pairs_of (l : list Z) : list (nat * nat) :=
 
 Definition cam_case (fx : bool) (calls plan : list Z) : list Z :=
   0 :: concat (map show_call (run fx (plan_of (pairs_of plan)) (map call_of_Z calls))).
+
+(* ---- vocabulary of the C16 statements --------------------------------- *)
+(* a call within the property's quantifier for "no device operation failed": start with the
+   documented precondition cap > 0, and descriptions that, when they parse, define the three
+   SFNC nodes the camera needs *)
+Definition good_call (c : call) : Prop :=
+  match c with
+  | CStart cap => cap <> 0
+  | CLoad x => x_parses x = true -> x_tl x = true /\ x_start x = true /\ x_stop x = true
+  | _ => True
+  end.
+
+Definition clean (s : cam) : Prop :=
+  loop_running s = false /\ tl_locked s = false /\ stream_enabled s = false /\
+  acquiring s = false /\ opened_ctrl s = false /\ opened_strm s = false /\
+  cache_nonempty s = false.
+
+(* operation j is the first one the plan fails *)
+Definition first_fail (plc : nat -> bool) (j : nat) : Prop :=
+  plc j = true /\ forall k, (k < j)%nat -> plc k = false.
